@@ -20,7 +20,7 @@ BUDGET = {"quick": 6000, "thorough": 100000}
 MIN_NONTRIVIAL = {"quick": 800, "thorough": 8000}
 REQUIRED_FUNCTIONS = ["utils.py:to_DiGraph"]
 FUNCTIONS = REQUIRED_FUNCTIONS
-REQUIRED_TAGS = ["via:loads", "via:api", "regref:positional", "regref:keyword", "no-arglist", "multi-mode", "single-op"]
+REQUIRED_TAGS = ["via:loads", "via:api", "regref:positional", "regref:keyword", "no-arglist", "multi-mode", "single-op", "repeated-mode", "regref:same-register-twice"]
 ASSUMPTIONS = ["share relation: a common mode, or a mode of one operation that is a measured register used by the other (either direction, as wires)"]
 
 
@@ -34,6 +34,9 @@ def build_text(rng, g):
     for _ in range(n):
         k = rng.choice([1, 1, 1, 2, 2, 3, 4])
         ms = rng.sample(pool, min(k, len(pool)))
+        if rng.random() < 0.04:
+            ms = ms + [ms[0]]   # the same mode listed twice
+            tags.add("repeated-mode")
         c = rng.random()
         if c < 0.3:
             al = ""
@@ -48,6 +51,10 @@ def build_text(rng, g):
                     regs = rng.sample(pool + [rng.randint(0, 14)], rng.choice([1, 1, 2]))
                     args.append(" + ".join("%s*q%d" % (rng.choice(["2", "0.5", "1"]), r) for r in regs))
                     tags.add("regref:positional")
+                    if rng.random() < 0.3:
+                        # the same register read by a second argument of this operation
+                        kws.append("%s=3*q%d" % (G.ident(fresh=False), regs[0]))
+                        tags.add("regref:same-register-twice")
                 else:
                     args.append(rng.choice(["1", "0.5", "2*3", "pi"]))
             for _ in range(rng.choice([0, 0, 1])):
